@@ -602,6 +602,7 @@ IDENTITY_SCOPE = {
     "C01": (_MIX + ("anytree/node/util.py",), "structural"),
     "C02": (_MIX + ("anytree/node/util.py",), "structural"),
     "C16": (_MIX + ("anytree/node/util.py",), "structural"),
+    "C03": (_MIX + ("anytree/node/util.py",), "structural"),
     "C04": (_MIX + ("anytree/util/__init__.py",), "navigation"),
     "C05": (_ITER, None),
     "C06": (_ITER, None),
@@ -660,6 +661,13 @@ def _structural_members(p):
                             g = getattr(mem, k)
                             if g is not None:
                                 work.append(g)
+                elif isinstance(n, ast.Attribute) and isinstance(n.ctx, ast.Load) and not n.attr.startswith("_"):
+                    # public members of the mixin used by the structural code (node.is_descendant_of(self), node.iter_path_reverse(), ...)
+                    mem = cls.members.get(n.attr)
+                    if isinstance(mem, Func):
+                        work.append(mem)
+                    elif isinstance(mem, Prop) and mem.getter is not None:
+                        work.append(mem.getter)
     return out
 
 
